@@ -21,24 +21,26 @@ example : leave Act.queue exBody exUpd 3 { exCtx with depth := 2 } = { exCtx wit
   decide
 
 /-- C14.2 — after the outermost close the context is quiescent (depth 0, the three queues empty,
-    `allow = 0`), no fuel ran out, `collect_cycles` ran exactly once (at the very end, although
-    nested transactions ran), and `end_of_transaction` ran once for the outer transaction plus once
-    per post closure run, transitively (`cnt`).
-    Hypotheses: the propagation pushes no `pre_eot` closure (see the counterexample below), nested
-    bodies are well-founded, fuel exceeds the rank of every queued post closure. -/
+    `allow = 0`), whatever the propagation pushes — `pre_eot` closures included: they are run after
+    the propagation, and so are the closures they push in turn —; no fuel ran out, `collect_cycles`
+    ran exactly once (at the very end, although nested transactions ran), and `end_of_transaction`
+    ran once for the outer transaction plus once per post closure run, transitively (`cnt`).
+    Hypotheses: nested bodies are well-founded, fuel exceeds the rank of every queued `pre_eot` and
+    post closure. -/
 theorem quiescent_after_close (q : α → Queue) (body : α → List α) (rank : α → Nat)
     (hbody : ∀ a, ∀ b ∈ body a, rank b < rank a) (fuel : Nat) (upd : List α) (c : Ctx α)
     (hd : c.depth = 1) (ha : c.allow = 0) (ho : c.oof = false)
-    (hupd : ∀ a ∈ upd, q a ≠ .preEot)
+    (hfuelPre : ∀ a ∈ c.preEot ++ onQ q .preEot upd, rank a < fuel)
     (hfuel : ∀ a ∈ c.post ++ onQ q .post upd, rank a < fuel) :
     quiescent (leave q body upd (fuel + 1) c) ∧
     (leave q body upd (fuel + 1) c).oof = false ∧
     (leave q body upd (fuel + 1) c).collects = c.collects + 1 ∧
     (leave q body upd (fuel + 1) c).eots
-      = c.eots + 1 + ((c.post ++ onQ q .post upd).map (cnt q body fuel)).sum ∧
+      = c.eots + 1 + ((postPart q body upd fuel c).map (cnt q body fuel)).sum ∧
     c.eots + 1 + (c.post ++ onQ q .post upd).length ≤ (leave q body upd (fuel + 1) c).eots := by
-  rw [leave_closed q body rank hbody fuel upd c hd (onQ_eq_nil_of_forall_ne hupd) hfuel]
-  have := length_le_sum_cnt q body fuel (c.post ++ onQ q .post upd)
+  rw [leave_closed q body rank hbody fuel upd c hd hfuelPre hfuel]
+  have := length_le_sum_cnt q body fuel (postPart q body upd fuel c)
+  have hlen := (sublist_postPart q body upd fuel c).length_le
   refine ⟨?_, ?_, ?_, ?_, ?_⟩
   · simp [quiescent, closed, ha]
   · simpa [closed] using ho
@@ -59,10 +61,31 @@ example : quiescent (leave Act.queue exBody exUpd 3 exCtx)
         = [.catchUpHold 3, .commitHold 7, .clearFiring 0, .onceDetach 4,
            .deferredSend 1 5, .clearFiring 1, .commitHold 2, .userPost 9] := by decide
 
-/-- the hypothesis on `upd` is needed: a `pre_eot` closure pushed *by the propagation* when no post
-    closure is queued stays on its queue after the outermost close -/
-example : ¬ quiescent (leave Act.queue exBody [.catchUpHold 1] 3 ({ depth := 1 } : Ctx Act)) := by
+/-- a propagation that pushes a `pre_eot` closure (`exUpdPre` contains `catchUpHold 7`: a handler
+    builds a hold): the theorem applies … -/
+example := quiescent_after_close Act.queue exBody exRank exBody_wf 2 exUpdPre exCtx rfl rfl rfl
+  (by decide) (by decide)
+
+/-- … the closure is logged after the queued `pre_eot` closure and before the `pre_post` closures,
+    and the result is quiescent -/
+example : quiescent (leave Act.queue exBody exUpdPre 3 exCtx)
+    ∧ (leave Act.queue exBody exUpdPre 3 exCtx).eots = 3
+    ∧ (leave Act.queue exBody exUpdPre 3 exCtx).collects = 1
+    ∧ (leave Act.queue exBody exUpdPre 3 exCtx).log
+        = [.catchUpHold 3, .catchUpHold 7, .commitHold 7, .clearFiring 0, .onceDetach 4,
+           .deferredSend 1 5, .clearFiring 1, .commitHold 2, .userPost 9] := by decide
+
+/-- the former counterexample (a `pre_eot` closure pushed *by the propagation* when no post closure
+    is queued used to stay on its queue after the outermost close): it is run, the context is
+    quiescent -/
+example : quiescent (leave Act.queue exBody [.catchUpHold 1] 3 ({ depth := 1 } : Ctx Act))
+    ∧ (leave Act.queue exBody [.catchUpHold 1] 3 ({ depth := 1 } : Ctx Act)).log
+        = [.catchUpHold 1] := by
   decide
+
+/-- `pre_eot` closures that push (`exBodyPre`): the drains run until the queue is empty -/
+example := quiescent_after_close Act.queue exBodyPre exRankPre exBodyPre_wf 4 exUpdPre
+  { exCtx with preEot := [.switchInit 2] } rfl rfl rfl (by decide) (by decide)
 
 /-- C14.2, nested case — a close at depth 1 while `end_of_transaction` of an enclosing transaction
     is running (`allow > 0`): the nested `end_of_transaction` empties the queues, brings the depth
@@ -70,19 +93,23 @@ example : ¬ quiescent (leave Act.queue exBody [.catchUpHold 1] 3 ({ depth := 1 
 theorem nested_close_transparent (q : α → Queue) (body : α → List α) (rank : α → Nat)
     (hbody : ∀ a, ∀ b ∈ body a, rank b < rank a) (fuel : Nat) (upd : List α) (c : Ctx α)
     (hd : c.depth = 1) (ha : c.allow ≠ 0)
-    (hupd : ∀ a ∈ upd, q a ≠ .preEot)
+    (hfuelPre : ∀ a ∈ c.preEot ++ onQ q .preEot upd, rank a < fuel)
     (hfuel : ∀ a ∈ c.post ++ onQ q .post upd, rank a < fuel) :
     let r := leave q body upd (fuel + 1) c
     r.depth = 0 ∧ r.preEot = [] ∧ r.prePost = [] ∧ r.post = [] ∧
     r.allow = c.allow ∧ r.collects = c.collects ∧ r.oof = c.oof := by
   intro r
   have hr : r = closed q body upd fuel c :=
-    leave_closed q body rank hbody fuel upd c hd (onQ_eq_nil_of_forall_ne hupd) hfuel
+    leave_closed q body rank hbody fuel upd c hd hfuelPre hfuel
   rw [hr]
   simp [closed, ha]
 
 example : (leave Act.queue exBody exUpd 3 { exCtx with allow := 1 }).collects = 0
     ∧ (leave Act.queue exBody exUpd 3 { exCtx with allow := 1 }).allow = 1 := by decide
+
+example : (leave Act.queue exBody exUpdPre 3 { exCtx with allow := 1 }).collects = 0
+    ∧ (leave Act.queue exBody exUpdPre 3 { exCtx with allow := 1 }).allow = 1
+    ∧ (leave Act.queue exBody exUpdPre 3 { exCtx with allow := 1 }).preEot = [] := by decide
 
 /-- C14.3 — `Scoped.close` is idempotent: a second `close` (e.g. the one of `drop`), with whatever
     arguments, returns the object and the context unchanged. -/
@@ -115,13 +142,13 @@ example : (({} : Scoped).close Act.queue exBody exUpd 3 exCtx).2.eots = 3
 theorem nesting_balanced (q : α → Queue) (body : α → List α) (rank : α → Nat)
     (hbody : ∀ a, ∀ b ∈ body a, rank b < rank a) (fuel : Nat) (w : List (Op α)) (c : Ctx α)
     (hc : quiescent c) (ho : c.oof = false) (hw : wellBracketed 0 w = true)
-    (hfuel : ∀ a ∈ pushes w, q a = .post → rank a < fuel) :
+    (hfuel : ∀ a ∈ pushes w, q a ≠ .prePost → rank a < fuel) :
     quiescent (run q body (fuel + 1) w c) ∧ (run q body (fuel + 1) w c).oof = false ∧
     (run q body (fuel + 1) w c).collects = c.collects + closes 0 w ∧
     c.eots + closes 0 w ≤ (run q body (fuel + 1) w c).eots := by
   obtain ⟨h0, h1, h2, h3, h4⟩ := hc
   have := run_wellBracketed q body rank hbody fuel w c (by rw [h0]; exact hw) h4 ho
-    (fun _ => ⟨h1, h2, h3⟩) (by simp [h3]) hfuel
+    (fun _ => ⟨h1, h2, h3⟩) (by simp [h1]) (by simp [h3]) hfuel
   rw [h0] at this
   exact this
 
@@ -137,6 +164,22 @@ example : closes 0 exWord = 2 ∧ (run Act.queue exBody 3 exWord {}).collects = 
     ∧ (run Act.queue exBody 3 exWord {}).eots = 4
     ∧ (run Act.queue exBody 3 exWord {}).log
         = [.commitHold 7, .deferredSend 1 5, .clearFiring 1, .commitHold 2, .userPost 9] := by
+  decide
+
+/-- a word that also pushes `pre_eot` closures, one of which (`switchInit 2`) pushes in turn -/
+def exWordPre : List (Op Act) :=
+  [.enter, .push (.catchUpHold 3), .enter, .push (.switchInit 2), .leave, .push (.userPost 9),
+   .leave, .enter, .push (.userPost 8), .leave]
+
+example := nesting_balanced Act.queue exBodyPre exRankPre exBodyPre_wf 5 exWordPre {} (by decide) rfl
+  (by decide) (by decide)
+
+example : closes 0 exWordPre = 2 ∧ (run Act.queue exBodyPre 6 exWordPre {}).collects = 2
+    ∧ quiescent (run Act.queue exBodyPre 6 exWordPre {})
+    ∧ (run Act.queue exBodyPre 6 exWordPre {}).log
+        = [.catchUpHold 3, .switchInit 2, .switchInit 3, .resetVisited 2, .resetVisited 3,
+           .userPost 9, .userPost 6,
+           .userPost 8, .switchInit 5, .commitHold 8, .resetVisited 5, .userPost 6] := by
   decide
 
 /-- C14.4, bracket form — a word `enter :: w ++ [leave]` whose inner part keeps the transaction open
@@ -168,7 +211,7 @@ theorem empty_txn_silent (q : α → Queue) (body : α → List α) (fuel : Nat)
   obtain ⟨h0, h1, h2, h3, h4⟩ := hc
   have : transaction q body [] [] (fuel + 1) c
       = { c with eots := c.eots + 1, collects := c.collects + 1 } := by
-    apply Ctx.ext' <;> simp [transaction, leave, enter, runPosts, h0, h1, h2, h3, h4]
+    apply Ctx.ext' <;> simp [transaction, leave, runPre, enter, runPosts, h0, h1, h2, h3, h4]
   exact ⟨this, by rw [this]⟩
 
 example : (transaction Act.queue exBody [] [] 1 ({ log := [.userPost 0] } : Ctx Act)).log
